@@ -44,8 +44,26 @@ JudgePoly(e) ==
          /\ Check(e, "PhaseSetNamedByFirst", PhaseSetNamedByFirst(e))
          /\ Check(e, "PhaseSetsAreIntervals", PhaseSetsAreIntervals(e))
 
+(* Reordering of the threads of one block (whatshap.polyphase.reorder.get_optimal_assignments without pre-phasing): at every
+   breakpoint the affected threads (ascending, e.bps[b].aff) are linked to the threads e.bps[b].best (the most likely
+   permutation); asg[b] says which thread sits in haplotype slot i (0-based values, 1-based TLA indices) for piece b.
+   The pieces must stay PERMUTATIONS of the threads - otherwise a haplotype row is written twice and another is lost, and the
+   written genotype no longer lists the alleles of the input genotype - and follow exactly the chosen links. *)
+IsPerm(a, P) == Len(a) = P /\ { a[i] : i \in 1..P } = 0..(P - 1)
+LinkOf(bp, t) == IF \E k \in DOMAIN bp.aff : bp.aff[k] = t
+                 THEN bp.best[CHOOSE k \in DOMAIN bp.aff : bp.aff[k] = t] ELSE t
+JudgeAssign(e) ==
+    /\ Check(e, "Returns", e.exc = "")
+    /\ e.exc = "" =>
+         /\ Check(e, "AssignmentsArePermutations", Len(e.asg) = Len(e.bps) + 1 /\ \A b \in DOMAIN e.asg : IsPerm(e.asg[b], e.ploidy))
+         /\ Check(e, "AssignmentsFollowLinks",
+                  (Len(e.asg) = Len(e.bps) + 1 /\ \A b \in DOMAIN e.asg : IsPerm(e.asg[b], e.ploidy)) =>
+                      /\ e.asg[1] = [i \in 1..e.ploidy |-> i - 1]
+                      /\ \A b \in DOMAIN e.bps : \A i \in 1..e.ploidy : e.asg[b + 1][i] = LinkOf(e.bps[b], e.asg[b][i]))
+
 Judge(e) ==
     CASE e.ev = "Force"   -> JudgeForce(e)
+      [] e.ev = "Assign"  -> JudgeAssign(e)
       [] e.ev = "Cuts"    -> JudgeCuts(e)
       [] e.ev = "Poly"    -> JudgePoly(e)
       [] e.ev = "Crashed" -> Fail(e, "Returns")
